@@ -10,6 +10,8 @@ import (
 var Registry = map[string]func(tier string) int{
 	"C01": C01,
 	"C02": C02,
+	"C03": C03,
+	"C04": C04,
 	"C06": C06,
 	"C12": C12,
 	"C13": C13,
